@@ -54,6 +54,13 @@ def make_query(name: str, arity: int, position: str) -> str:
         # a documented function whose arguments are themselves documented functions, inside another one
         inner = [a if a.isdigit() else f"fabs({a})" for a in arg_exprs(name, arity)]
         call = f"cosh({name}({', '.join(inner)}))"
+    if position == "first" and name != "nan":
+        # the function applied to a value that lives inside First()'s loop, standing alone in its column and as the
+        # right operand of an arithmetic expression
+        args = arg_exprs(name, arity)
+        args[0] = 'e.Muons("muons").First().pt()'
+        args = [a.replace("m.eta()", "2.5").replace("m.phi()", "1.5") for a in args]
+        return f"ds.Select(lambda e: (1 + {name}({', '.join(args)}), e.Muons(\"muons\").Count()))"
     if position == "arith":
         call = f"({call} * 2 + m.pt()) / 3"
     return f'ds.Select(lambda e: e.Muons("muons").Select(lambda m: {call}))'
@@ -122,7 +129,8 @@ def check(tier: str, seed: int, t0: float, build: core.BuildStatus) -> int:
             audit = [[n, "?", [], "false", []] for n in parse_readme()]
         except Exception:  # noqa: BLE001
             audit = []
-    positions = ["alone", "arith", "intarg", "nested"]
+    positions = ["alone", "arith", "intarg", "nested", "first"]
+    smodel = core.Model() if build.model_ok else None
     distinct = set()
     per_name: Dict[str, Dict[str, Any]] = {}
     for ent in audit:
@@ -158,6 +166,23 @@ def check(tier: str, seed: int, t0: float, build: core.BuildStatus) -> int:
                         what=f"{name}(...) is emitted as {other[0] if other else 'no call'} on {backend}" + (f" ({hint})" if hint else ""),
                         replay={**replay, "differs": hint}))
                     continue
+                if pos == "first" and name != "nan" and smodel is not None:
+                    # the value of the call must be used where its arguments are in scope (Coq-defined checker of C02)
+                    from .. import cxx, qgen as _qgen, semrun
+                    from . import c02 as _c02
+                    try:
+                        prog, ql = cxx.parse_program(backend, r[1]["slots"])
+                        semrun._resolve_tokens(prog)
+                        res = smodel.call("c02.check", [prog, _c02.method_table(_qgen.Universe(backend))])
+                        bad_scope = ([f"{x[0]}: {n}" for x in res[1:] if x[0] in ("well_scoped", "unique_decls") for n in x[1]]
+                                     if res[0] == "ok" else [f"model refused the program: {res}"])
+                    except cxx.ParseError as e:
+                        bad_scope = [f"emitted code outside the C++ subset: {e}"]
+                    if bad_scope:
+                        oc.violations.append(core.Violation(
+                            key=f"c12:first-arg-scope:{name}", what=f"1 + {name}(<value of First()>) on {backend}: the emitted code is not well-scoped ({bad_scope[0][:120]})",
+                            replay={**replay, "static_checker": bad_scope[:4]}))
+                        continue
                 if pos == "nested" and name != "nan" and not ({"std::cosh", "std::fabs"} <= set(calls)):
                     oc.violations.append(core.Violation(
                         key=f"c12:nested-call-lost:{name}", what=f"cosh({name}(fabs(..))) on {backend}: emitted calls {calls} do not contain all three functions",
@@ -188,8 +213,10 @@ def check(tier: str, seed: int, t0: float, build: core.BuildStatus) -> int:
                             replay={**replay, "class_decl": decl}))
                         continue
                 oc.traces_validated_against_impl += 1
+    if smodel is not None:
+        smodel.close()
     oc.distinct_nontrivial = len(distinct)
-    oc.rule = ("every documented name (README list, regenerated) x 3 backends x {standalone, inside (f(..)*2+x)/3, with integer-typed arguments (column must be double), nested cosh(f(fabs(..)))}; arity from the cmath signature table; "
+    oc.rule = ("every documented name (README list, regenerated) x 3 backends x {standalone, inside (f(..)*2+x)/3, with integer-typed arguments (column must be double), nested cosh(f(fabs(..))), 1 + f(<value of First()>) with the C02 scope checker on the emitted program}; arity from the cmath signature table; "
                "non-trivial = every query (each goes through name resolution, emission and include handling); distinct by query text")
     oc.samples = [make_query("atan2", 2, "arith"), make_query("floor", 1, "alone"), make_query("nan", 1, "alone")]
     oc.exhaustive = True
